@@ -31,9 +31,14 @@ Inc(f, t) == Put(f, t, Cnt(f, t) + 1)
 
 ev == Rec[l]
 
+IsDg == ev.name \in {"dg_block", "dg_cycle", "dg_unblock_key", "dg_unblock", "dg_wake", "dg_transfer",
+                      "dg_undo_transfer", "dg_unblock_transferred"}
+
 \* obligations that must hold before any event other than the expected unblocks is processed
+\* (only evaluated at events that need the dependency-graph lock: events made under a shard lock alone can
+\* be logged in the middle of another thread's dependency-graph critical section)
 Settled ==
-    /\ Check("C19", aux.exp = {}, <<"release did not unblock every waiting thread", aux.exp, aux.res>>)
+    IsDg => Check("C19", aux.exp = {}, <<"release did not unblock every waiting thread", aux.exp, aux.res>>)
 
 OnHkB(Gb) ==
     LET nm == ev.name k == ev.k t == ev.a0 IN
@@ -126,8 +131,6 @@ OnHkB(Gb) ==
 \* update_transferred_edges runs after unblock_transfer_target inside transfer_lock (one critical section
 \* of the dependency graph): the rewrite of a transfer is applied after the unblock of the transfer target
 \* if one follows, otherwise before the next dependency-graph event.
-IsDg == ev.name \in {"dg_block", "dg_cycle", "dg_unblock_key", "dg_unblock", "dg_wake", "dg_transfer",
-                      "dg_undo_transfer", "dg_unblock_transferred", "sync_claim_transferred"}
 IsTTUnblock == ev.name = "dg_unblock" /\ aux.tt /\ ev.a0 \in aux.cands /\ ev.a0 \notin aux.exp
 ApplyRw == rw.on /\ IsDg /\ ~IsTTUnblock
 OnHk ==
@@ -139,7 +142,7 @@ OnHk ==
 
 \* end of a round of readers: nobody is left waiting, nothing is left claimed
 OnRoundEnd ==
-    /\ Settled
+    /\ Check("C19", aux.exp = {}, <<"release did not unblock every waiting thread", aux.exp, aux.res>>)
     /\ Check("C19", DOMAIN G.edges = {} /\ DOMAIN G.wr = {}, <<"threads left blocked at the end of a round", G.edges, G.wr>>)
     /\ Check("C19", \A t \in DOMAIN aux.waits : Cnt(aux.wakes, t) = aux.waits[t], <<"a waiting thread was never resumed", aux.waits, aux.wakes>>)
     /\ Check("C19", \A k \in DOMAIN G.sync : G.sync[k].owner = -1, <<"claims leaked at the end of a round", G.sync>>)
